@@ -32,7 +32,7 @@ var c04Constructs = []string{"Split", "Buffer", "ParallelBuffer", "Map", "Proces
 	"MergeSlices", "MergeSliceIterators", "BufferedChannel", "dt.Map.Iterator", "dt.Map.Keys", "dt.Map.Values", "adt.Map.Iterator", "adt.Map.Keys", "adt.Map.Values",
 	"Map(Buffer)", "Buffer(Map)", "ParallelBuffer(Merge)", "Chain(Buffer,Split1)", "ParallelBuffer", "GenerateParallel", "ParallelBuffer"}
 
-var c04Stops = []string{"exhaust", "close", "cancel", "close-then-cancel", "close-while-parked", "concurrent-close", "cancel-while-parked", "cancel-in-waitgroup-window"}
+var c04Stops = []string{"exhaust", "close", "cancel", "close-then-cancel", "close-while-parked", "concurrent-close", "cancel-while-parked", "cancel-in-waitgroup-window", "deadline"}
 
 type c04Case struct {
 	Construct string `json:"construct"`
@@ -43,6 +43,8 @@ type c04Case struct {
 	Procs     int    `json:"gomaxprocs"`
 	Endless   bool   `json:"source_blocks_after_n"`
 	Order     []int  `json:"split_close_order,omitempty"`
+	Opts      string `json:"worker_group_options,omitempty"`
+	Honour    bool   `json:"generator_checks_its_context,omitempty"`
 }
 
 // c04Source yields 1..n and then either ends or blocks until its
@@ -71,7 +73,15 @@ type c04Out struct {
 func c04Build(ctx context.Context, c c04Case, rng *rand.Rand) c04Out {
 	src := func() *fun.Iterator[int] { return c04Source(c.N, c.Endless) }
 	ident := func(_ context.Context, v int) (int, error) { return v, nil }
-	nw := fun.WorkerGroupConfNumWorkers(c.W)
+	nws := []fun.OptionProvider[*fun.WorkerGroupConf]{fun.WorkerGroupConfNumWorkers(c.W)}
+	switch c.Opts {
+	case "continue-on-error":
+		nws = append(nws, fun.WorkerGroupConfContinueOnError())
+	case "include-context-errors":
+		nws = append(nws, fun.WorkerGroupConfIncludeContextErrors())
+	case "continue-on-error+include-context-errors":
+		nws = append(nws, fun.WorkerGroupConfContinueOnError(), fun.WorkerGroupConfIncludeContextErrors())
+	}
 	one := func(it *fun.Iterator[int]) c04Out { return c04Out{its: []*fun.Iterator[int]{it}} }
 	m := map[int]int{}
 	for k := 1; k <= c.N; k++ {
@@ -112,15 +122,20 @@ func c04Build(ctx context.Context, c c04Case, rng *rand.Rand) c04Out {
 	case "ParallelBuffer":
 		return one(src().ParallelBuffer(c.W))
 	case "Map":
-		return one(fun.Map(src(), ident, nw))
+		return one(fun.Map(src(), ident, nws...))
 	case "ProcessParallel":
 		done := make(chan error, 1)
-		w := src().ProcessParallel(func(context.Context, int) error { return nil }, nw)
+		w := src().ProcessParallel(func(context.Context, int) error { return nil }, nws...)
 		go func() { done <- w.Run(ctx) }()
 		return c04Out{done: done}
 	case "GenerateParallel":
 		var i atomic.Int64
 		gen := fun.Producer[int](func(ctx context.Context) (int, error) {
+			if c.Honour {
+				if err := ctx.Err(); err != nil {
+					return 0, err
+				}
+			}
 			k := int(i.Add(1))
 			if k > c.N {
 				if c.Endless {
@@ -131,7 +146,7 @@ func c04Build(ctx context.Context, c c04Case, rng *rand.Rand) c04Out {
 			}
 			return k, nil
 		})
-		return one(gen.GenerateParallel(nw))
+		return one(gen.GenerateParallel(nws...))
 	case "MergeIterators":
 		return one(fun.MergeIterators(parts()...))
 	case "Chain":
@@ -155,9 +170,9 @@ func c04Build(ctx context.Context, c c04Case, rng *rand.Rand) c04Out {
 	case "adt.Map.Values":
 		return one(am.Values())
 	case "Map(Buffer)":
-		return one(fun.Map(src().Buffer(c.W), ident, nw))
+		return one(fun.Map(src().Buffer(c.W), ident, nws...))
 	case "Buffer(Map)":
-		return one(fun.Map(src(), ident, nw).Buffer(2))
+		return one(fun.Map(src(), ident, nws...).Buffer(2))
 	case "ParallelBuffer(Merge)":
 		return one(fun.MergeIterators(parts()...).ParallelBuffer(c.W))
 	case "Chain(Buffer,Split1)":
@@ -359,9 +374,14 @@ func c04Scenario(r *kit.Run, idx int64, rng *rand.Rand) {
 			c.Stop, wgWindow = "cancel", false
 		}
 	}
+	switch c.Construct {
+	case "Map", "ProcessParallel", "GenerateParallel", "Map(Buffer)", "Buffer(Map)":
+		c.Opts = []string{"", "", "continue-on-error", "include-context-errors", "continue-on-error+include-context-errors"}[rng.IntN(5)]
+		c.Honour = rng.IntN(2) == 0
+	}
 	if c.Construct == "BufferedChannel" || c.Construct == "ProcessParallel" {
 		switch c.Stop {
-		case "exhaust":
+		case "exhaust", "deadline":
 		case "cancel-while-parked", "cancel-in-waitgroup-window":
 		default:
 			c.Stop, c.Endless = "cancel", false
@@ -373,7 +393,10 @@ func c04Scenario(r *kit.Run, idx int64, rng *rand.Rand) {
 	r.Eval()
 	r.Current(idx, fmt.Sprintf("%+v", c))
 
-	ctx, cancel := context.WithCancel(context.Background())
+	// the context of the first advance: cancellable, and its "deadline" can
+	// be made to pass without a timer
+	base, expire := kit.NewExpiringContext()
+	ctx, cancel := context.WithCancel(base)
 	defer cancel()
 	var problem, kind string
 	note := func(k, s string) {
@@ -512,6 +535,8 @@ func c04Scenario(r *kit.Run, idx int64, rng *rand.Rand) {
 				closeAll()
 			case "cancel":
 				cancel()
+			case "deadline":
+				expire()
 			case "cancel-in-waitgroup-window":
 				// the hook cancels when a WaitGroup waiter reaches its park
 				// window; if none does (nothing waits), cancel here
@@ -582,6 +607,20 @@ func c04Scenario(r *kit.Run, idx int64, rng *rand.Rand) {
 			// verdict: no goroutine of the module may remain
 			cs, q := kit.Quiesce(c04Watchdog)
 			if !q {
+				// not quiescent for the whole watchdog: is a goroutine of the
+				// pipeline running on (a loop that treats the stop as
+				// "continue") instead of exiting?
+				if sp := kit.Spinners(3*time.Second, 30); len(sp) > 0 && problem == "" {
+					var tops []string
+					for _, g := range sp {
+						tops = append(tops, "g"+g.ID+" ["+g.State+"] "+g.TopFun)
+					}
+					note("goroutine-spins-after-stop", fmt.Sprintf("%v after %s the process is still not quiescent: %d goroutine(s) started on behalf of the pipeline were runnable in every one of 30 censuses over 3 more seconds, never parked and never gone: %v", c04Watchdog, c.Stop, len(sp), tops))
+					expire()
+					cancel()
+					r.Halt() // nothing further can be judged in this process
+					return
+				}
 				inconclusive = "not quiescent after the stop"
 				cancel()
 				return
